@@ -406,8 +406,9 @@ int svt_dec_out_buf(EbDecHandle *dec_handle_ptr, EbBufferHeaderType *p_buffer) {
                                        out_img->y_stride,
                                        out_img->cb_stride,
                                        use_high_bit_depth,
-                                       sy,
-                                       sx);
+                                       /* 4:0:0 has sx = sy = -1: the grain code shifts by these */
+                                       sy < 0 ? 1 : sy,
+                                       sx < 0 ? 1 : sx);
         }
     }
 
